@@ -387,6 +387,10 @@ def list_find(ip, l, x):
     found = c.fresh("found", B)
     p = c.fresh("pos", I)
     j = z3.Int("lf_j")
+    # name the element array and the length by ground terms: frame axioms (triggered on lelem[l] / llen[l]) can only fire on terms that occur
+    # outside quantifier bodies
+    ec = c.fresh("lf_elems", smt.ElemArr)
+    c.assume(z3.And(ec == e, n >= 0))
     c.assume(z3.Implies(found, z3.And(0 <= p, p < n, e[p] == xv,
                                       smt.FA([j], z3.Implies(z3.And(0 <= j, j < p), e[j] != xv)))))
     c.assume(z3.Implies(z3.Not(found), smt.FA([j], z3.Implies(z3.And(0 <= j, j < n), e[j] != xv))))
